@@ -166,7 +166,7 @@ theorem namespaces_may_grow : Statement_namespaces_may_grow := by
         split at hn
         · exact Or.inl hn
         · next hc =>
-          have hc' : (c && s.isDataset) = false := by simpa using hc
+          have hc' : (c && s.isDataset && !s.quads.isEmpty) = false := by simpa using hc
           rcases preprocessTriples_ns_mem nsOf _ _ n hn with h1 | h1
           · rcases preprocessTriples_ns_mem nsOf _ _ n h1 with h2 | h2
             · exact Or.inl h2
